@@ -22,3 +22,15 @@ for _f in sorted(os.listdir(_D)):
 
 # properties that are not claimed, with the reason (default text in bin/mkmanifest)
 NOT_APPLICABLE = {}
+
+# the per-file source pins of the files each property's anchors name (bin/mkanchors -> bin/anchors.json)
+import json as _json
+_A = os.path.join(os.path.dirname(os.path.abspath(__file__)), "anchors.json")
+if os.path.exists(_A):
+    for _id, _obs in _json.load(open(_A)).items():
+        if _id in PROPS:
+            _g = PROPS[_id].setdefault("generated", [])
+            for _o in _obs:
+                _whole = _o.rsplit(".", 1)[0] + ".gen_source"
+                if _o not in _g and _whole not in _g:
+                    _g.append(_o)
